@@ -30,6 +30,7 @@ PROPS = {
     "C13": {"level": "exploration", "assumptions": PURE_ASSUMPTIONS + ["templates come from a grammar around the offered function set (config access, sprig string functions, include of a uniquely named helper, getFile), not arbitrary Go templates"],
             "parts": [
                 {"name": "render", "test": "TestC13", "quick_checks": 1500, "thorough_checks": 120000, "thorough_shards": 16},
+                {"name": "context", "test": "TestC13Context", "quick_checks": 600, "thorough_checks": 40000, "thorough_shards": 16},
                 {"name": "hermetic", "test": "TestC13Hermetic", "quick_checks": 3000, "thorough_checks": 200000, "thorough_shards": 8, "replayable": False},
             ]},
     "C14": {"level": "exploration", "assumptions": ENGINE_ASSUMPTIONS + ["the 1 MiB chunk limit is a constant; sizes are generated around it but the number of near-limit objects per case is small"],
@@ -63,6 +64,13 @@ PROPS = {
                 {"name": "oci", "test": "TestC19OCI", "quick_checks": 3000, "thorough_checks": 300000, "thorough_shards": 16},
                 {"name": "config", "test": "TestC19Config", "quick_checks": 5000, "thorough_checks": 500000, "thorough_shards": 16},
                 {"name": "reconcile", "test": "TestC19Reconcile", "quick_checks": 1500, "thorough_checks": 120000, "thorough_shards": 16},
+                {"name": "probe", "test": "TestC19Probe", "quick_checks": 5000, "thorough_checks": 600000, "thorough_shards": 16},
+                {"name": "fuzz-oci", "fuzz": "FuzzC19OCI", "test": "TestC19OCI", "thorough_only": True, "thorough_seconds": 240, "replayable": False,
+                 "rule": "native coverage-guided fuzzing (go test -fuzz, 16 workers) of packages.FromOCI on raw layer bytes, seeded with valid, truncated and non-tar layers; oracle inside the target: no panic; evaluations = executions reported by the fuzzing engine; non-trivial = inputs that reached new coverage and were kept in the corpus"},
+                {"name": "fuzz-files", "fuzz": "FuzzC19Files", "test": "TestC19Pipeline", "thorough_only": True, "thorough_seconds": 420, "replayable": False,
+                 "rule": "native coverage-guided fuzzing of the package pipeline (structural load, validators, template and object rendering, ObjectSet template) on the raw bytes of manifest.yaml, an object file and a template file, seeded with a valid package using every control annotation and hostile variants; oracle: no panic; non-trivial = inputs kept in the corpus for new coverage"},
+                {"name": "fuzz-probe", "fuzz": "FuzzC19Probe", "test": "TestC19Probe", "thorough_only": True, "thorough_seconds": 240, "replayable": False,
+                 "rule": "native coverage-guided fuzzing of probing.Parse + Probe on JSON probe lists x JSON objects; oracle: no panic; non-trivial = inputs kept in the corpus for new coverage"},
                 {"name": "cli", "test": "TestC19CLI", "quick_checks": 600, "thorough_checks": 40000, "thorough_shards": 16},
             ]},
     "C11": engine_prop("TestC11"),
